@@ -178,7 +178,7 @@ def run(ctx):
     ctx.add_obligations(info)
     ctx.cov["checker_cmd"] = "coqc -Q coq/Values BWValues coq/Values/Props/C06.v ; work/bin/h_values -mode uuid ; pre-images computed by coqc (vm_compute), hashed by h_values -mode hash"
     thorough = ctx.tier == "thorough"
-    rows = vc.hrows(["-mode", "uuid", "-seed", str(ctx.seed), "-n", "40000" if thorough else "1500"])
+    rows = vc.hrows(["-mode", "uuid", "-seed", str(ctx.seed), "-tier", ctx.tier, "-n", "40000" if thorough else "1500"])
     for r in [r for r in rows if r["kind"] == "ctor"][:3]:
         ctx.violation({"kind": "property-violated-by-implementation", "class": "constructor-getter-mismatch", "explain": r["what"],
                        "failing_input": {"id": vc.show(r["id"]), "anchor": r["anchor"], "printed": vc.show(r["printed"])}})
@@ -221,7 +221,21 @@ def run(ctx):
             owner.append((i, "ua"))
             vals.append((r["vkb"], r["b"]))
             owner.append((i, "ub"))
-    pres = model_preimages(ctx, "cases_c06", vals)
+    # text / blob literals of more than 6 000 bytes are too large for Coq's list notation: for them the model pre-image is
+    # written down here (Uuid.pre_literal (LText s) = Ok s, (LBlob b) = Ok b: the identity), everything else is evaluated in Coq
+    def big(kd, j):
+        return kd == "lit" and j.get("ty") in ("text", "blob") and len(j["v"]) > 12000
+    small_idx = [i for i, (kd, j) in enumerate(vals) if not big(kd, j)]
+    small_pres = model_preimages(ctx, "cases_c06", [vals[i] for i in small_idx])
+    pres = [None] * len(vals)
+    for i, p in zip(small_idx, small_pres):
+        pres[i] = p
+    nbig = 0
+    for i, (kd, j) in enumerate(vals):
+        if big(kd, j):
+            pres[i] = [bytes.fromhex(j["v"])]
+            nbig += 1
+    ctx.cov["large_literals_preimage_by_identity"] = nbig
     hashed = go_hash(pres)
     mism = 0
     for (i, fld), p, h in zip(owner, pres, hashed):
@@ -270,7 +284,7 @@ def run(ctx):
     # runtime part: same UUID in every process - the same generated values in a second harness process
     os.environ["TZ"] = "Asia/Kolkata"      # and in another local time zone: the UUID must not depend on it
     try:
-        rows2 = vc.hrows(["-mode", "uuid", "-seed", str(ctx.seed), "-n", "4000" if thorough else "600"])
+        rows2 = vc.hrows(["-mode", "uuid", "-seed", str(ctx.seed), "-tier", ctx.tier, "-n", "4000" if thorough else "600"])
     finally:
         os.environ.pop("TZ", None)
     rows2 = [r for r in rows2 if r["kind"] in ("uuid", "pair")]
